@@ -83,6 +83,7 @@ class ExecBase:
         self.used_contracts = set()
         self.pending_loops = {}
         self.top_qual = None
+        self.lemmas_seen = set()
 
     # ------------------------------------------------------------ solver helpers
     def check_sat(self, terms, ms=None):
